@@ -3,10 +3,16 @@
 import json
 
 CLAIMED = {
+    "C19": {
+        "technique": "Lean 4 theorems about the text.rs model (tspan contents, offset direction, classes, line offsets) and the escape round trip + attribute-for-attribute correspondence of process_text_attr",
+        "text": "Machine-checked proof (Lean 4), for all strings, line lists, locations and offsets: the character data written for a generated text / tspan element unescapes to exactly its content (content_survives_writer); multi-line text yields exactly one tspan per line with each line verbatim and an empty line kept as a zero-width space (tspan_per_line, tspan_content_verbatim, pre_keeps_characters); a value without backslashes is taken as is (textString_plain); text-offset moves the anchor inward for text inside a shape and outward — the exact negation — for lines, points, text elements and d-text-outside, along the axes named by text-loc and not at all at the centre (offset_direction, outside_is_inside_negated); alignment classes follow the anchor and flip outside (anchor_classes_centre, anchor_classes_flip); the first tspan is offset to top-, centre- or bottom-justify the block (first_line_offsets). The whole of process_text_attr (attribute moves, class split, presentation attributes, tspan construction) is a hand model compared attribute for attribute with the implementation on hostile strings × 6 shapes × 13 text-loc forms × class and offset options; at document level the expat-parsed character data is compared with the author's lines for the four carriers (text attribute, element content, CDATA, <text> element) together with the anchor position and the unchanged shape.",
+        "note": "Exact rationals for f32; text.rs is hand-modelled (Svgdx/Geom/Text.lean). The backslash-n grammar of text_string is proved only for backslash-free strings plus worked instances; the rest is correspondence. A genuine defect (content escaped twice) was repaired first.",
+        "design_ref": "DESIGN.md §7 C19",
+    },
     "C02": {
         "technique": "Lean 4 theorems about the writer/escape/root-attribute models (all strings, all elements) + byte-exact writer correspondence; expat oracle for the composition",
         "text": "Machine-checked proof (Lean 4), for all strings, elements and configurations, of each ingredient of well-formedness in the model of OutputList::write_to: escaping is exact (unescape (escape s) = s) and safe (no < > quote characters survive) — escaping_exact, escaping_safe, attr_value_has_no_quote; generated comments never contain '--' nor end in '-' (comments_delimited); every emitted element has unique attribute names, with class written once (attributes_unique, attrmap_insert_unique, over the AttrMap lemma library); the root always carries a namespace and a version and keeps the author's attributes (root_namespace_version). The writer model is compared byte for byte with the implementation on random event lists over an XML-hostile alphabet (hook write_events). The composition 'an independent parser accepts every successful output' is decided per document by the expat oracle over documents that route hostile strings into every sink under random configurations.",
-        "note": "Partial as a proof: there is no single theorem wf(write(events)) against an independent grammar, and balancedness of the generated event list is established by the oracle, not yet by induction over the control skeleton. quick-xml's own serialisation is modelled, not verified. Five genuine defects were repaired; one is open (unclosed input element gives unbalanced output — the repair contradicts the pinned test-suite, see KNOWN_FINDINGS.txt).",
+        "note": "Partial as a proof: there is no single theorem wf(write(events)) against an independent grammar, and balancedness of the generated event list is established by the oracle, not yet by induction over the control skeleton. quick-xml's own serialisation is modelled, not verified. Five genuine defects were repaired (KNOWN_FINDINGS.txt).",
         "design_ref": "DESIGN.md §7 C02",
     },
     "C03": {
